@@ -193,6 +193,26 @@ Theorem monitor_state_components_on_model : forall cfg t0 evs,
 Proof. exact monitor_state_components_on_model. Qed.
 Print Assumptions monitor_state_components_on_model.
 
+(* e_exec (position 9: c07_exec, c03_exec, c05_exec on the model's own Execute steps) and c06_final (position 12) *)
+Theorem monitor_exec_on_model : forall cfg t0 evs,
+  selectors_in_range (init cfg t0) evs -> fresh_calls [] evs -> bg_scripts_ok evs ->
+  panicked (snd (run (init cfg t0) evs)) \/ trace_sub [9%nat] cfg t0 (model_trace cfg t0 evs) = true.
+Proof. exact monitor_exec_on_model. Qed.
+Print Assumptions monitor_exec_on_model.
+
+Theorem monitor_c06_final_on_model : forall cfg t0 evs,
+  selectors_in_range (init cfg t0) evs -> fresh_calls [] evs -> bg_scripts_ok evs ->
+  panicked (snd (run (init cfg t0) evs)) \/ trace_sub [12%nat] cfg t0 (model_trace cfg t0 evs) = true.
+Proof. exact monitor_c06_final_on_model. Qed.
+Print Assumptions monitor_c06_final_on_model.
+
+(* all components proved so far, in one statement; sel_proved names their positions in p_components *)
+Theorem monitor_components_on_model : forall cfg t0 evs,
+  selectors_in_range (init cfg t0) evs -> fresh_calls [] evs -> bg_scripts_ok evs ->
+  panicked (snd (run (init cfg t0) evs)) \/ trace_sub sel_proved cfg t0 (model_trace cfg t0 evs) = true.
+Proof. exact monitor_components_on_model. Qed.
+Print Assumptions monitor_components_on_model.
+
 (* the whole monitor (all nineteen components) accepts the model's trace of the generated history, and of the history
    with the cyclic order on idle children (by computation) *)
 Example generated_history_trace_ok : trace_ok gen_cfg gen_t0 (model_trace gen_cfg gen_t0 gen_evs) = true.
